@@ -43,6 +43,11 @@ CheckCase(c) ==
               /\ Verdict(id, "propagated derivative = d/dx of the function's own values",
                          Len(c.res.o.chains) = Len(exp) /\ \A k \in DOMAIN exp :
                               RCloseSeq(c.res.o.chains[k].d, exp[k].d, "1/1000000", RMul("1/100000000", sc)))
+              \* ... and through every covariance input of x by the chain rule
+              /\ Verdict(id, "propagated derivative reaches the covariance inputs (chain rule)",
+                         Len(c.res.o.cov) = Len(c.x.cov) /\ \A k \in DOMAIN c.x.cov :
+                              /\ c.res.o.cov[k].name = c.x.cov[k].name
+                              /\ RCloseSeq(c.res.o.cov[k].grad, RScaleSeq(D, c.x.cov[k].grad), "1/1000000", RMul("1/100000000", RMul(RAbs(D), RMaxAbsSeq(c.x.cov[k].grad)))))
     [] OTHER -> Verdict(id, "unknown-event", FALSE)
 
 Init == l = 1 /\ LoadCases
